@@ -21,7 +21,7 @@ def gen_case(rng):
     kind = rng.pick(["merge_map", "merge_map", "replace_map", "merge_str", "replace_str", "merge_list", "replace_list", "chain", "dangling",
                      "nested_ref", "nested_ref", "list_combo", "list_combo"])
     if kind == "nested_ref":
-        return gen_nested_ref(rng)
+        return gen_nested_ref(rng) if rng.chance(2, 3) else gen_two_hosts(rng)
     if kind == "list_combo":
         return gen_list_combo(rng)
     cross = rng.chance(1, 3)
@@ -110,6 +110,28 @@ def gen_case(rng):
                 d[hkey] = inl
         meta["inlined"] = docs2
     c.append(meta)
+    return c
+
+
+def gen_two_hosts(rng):
+    """several hosts refer to ONE target and each merges its own content into the target's nested containers: every host
+    must get the target as written plus its own content only, and the target must come out as written"""
+    target = {"sub": {"y": 2, "deep": {"d": 1}}, "l": [1, {"k": 1}], "s": "t"}
+    if rng.chance(1, 2):
+        target["sub"]["l2"] = [7]
+    doc = {"tgt": target}
+    n = 2 + rng.below(2)
+    inl = {"tgt": target}
+    names = rng.shuffle(["h1", "h2", "zz", "a0"])[:n]      # hosts sorting before and after the target
+    for i, name in enumerate(names):
+        own = rng.pick([{"sub": {"x%d" % i: i}}, {"sub": {"deep": {"e%d" % i: i}}}, {"l": [i]}, {"sub": {"l2": [i]}} if "l2" in target["sub"] else {"n": i},
+                        {"sub": {"y": "$delete"}}, {"s": "own%d" % i}])
+        form = rng.below(3)
+        host = dict(own)
+        host["$merge"] = rng.pick(["tgt", ["tgt"]])
+        doc[name] = host
+    c = ["history", None, hist.stream_history([doc])]
+    c.append({"kind": "two_hosts", "cross": False})
     return c
 
 
